@@ -400,3 +400,6 @@ func collect(s sb.Stream) ([]sb.Token, error) {
 }
 
 func tokensFrom(ts []sb.Token) sb.Stream { return sb.Tokens(ts).Iter() }
+
+func mathFloat32bits(f float32) uint32 { return math.Float32bits(f) }
+func mathFloat64bits(f float64) uint64 { return math.Float64bits(f) }
